@@ -47,6 +47,8 @@ func c05RunCase(c *Case) (string, []Fail) {
 		return c05RecoveryCase(c.Z)
 	case 8:
 		return c05LiveRestartCase(c.Z)
+	case 9:
+		return c05LoadFailCase(c.Z)
 	}
 	return "badcase", nil
 }
@@ -80,6 +82,49 @@ func c05Gen(g *Gen) {
 		for i := 0; i < 3; i++ {
 			g.Case(7, nil, []int64{int64(g.R.U64() & 0xffffff), int64(8000 + g.R.Intn(4000)), int64(1 + g.R.Intn(8)), 8, 2, int64(i)})
 			g.Count("recovery-race-large")
+		}
+	}
+	// transient load failures of spilled chunks on the real hybrid buffer (kind 9):
+	// Z = seed, n, window, mode, then (rank, delay) pairs - ranks above the window, increasing, never the last chunk
+	for i := 0; i < g.Pick(24, 400); i++ {
+		mode := i % 2
+		w := g.R.Intn(2)
+		if mode == 1 {
+			w = []int{0, 1, 2, 3, 8}[g.R.Intn(5)]
+		}
+		n := w + 3 + g.R.Intn(12)
+		if i%8 == 7 {
+			n = w + 3 + 100 + g.R.Intn(400)
+		}
+		z := []int64{int64(g.R.U64() & 0xffffff), int64(n), int64(w), int64(mode)}
+		// 1-3 faults (sometimes none): single, adjacent ranks, first possible rank, last possible rank
+		nf := 1 + g.R.Intn(3)
+		if i%12 == 11 {
+			nf = 0
+		}
+		j := w + 1 + g.R.Intn(2)
+		for f := 0; f < nf && j < n-1; f++ {
+			d := []int{0, 0, 0, 1, 2, -1}[g.R.Intn(6)]
+			z = append(z, int64(j), int64(d))
+			j += 1 + g.R.Intn(3)
+			if g.R.Intn(4) == 0 {
+				j = n - 2
+			}
+		}
+		// mostly: enough chunks behind the faults for the file to be back before the feeder reaches the end of the queue
+		// (the feeder runs up to window+1 chunks ahead of the consumer, whose deliveries time the restoring)
+		if g.R.Intn(5) != 0 {
+			for f := 4; f < len(z); f += 2 {
+				if need := z[f] + z[f+1] + int64(w) + 5; z[1] < need {
+					z[1] = need
+				}
+			}
+		}
+		g.Case(9, nil, z)
+		if len(z) == 4 {
+			g.Count("load-failure-none")
+		} else {
+			g.Count("load-failure")
 		}
 	}
 	// restart / reload of the whole agent against a backlog with traffic at that instant (kind 8): Z = seed, n, m, mode
